@@ -139,6 +139,13 @@ def query (d : DState) (toks : List String) : String :=
       | none => cfgNs ++ "/default-sidecar"
     let ls := scopeListeners d.flags d.mesh d.svcs d.vss sc cfgNs
     showScope d name ls (collectImportedServices d.flags d.mesh d.svcs cfgNs ls) cfgNs
+  | ["xds", ns, lbl] =>
+    -- CDS: one outbound cluster per (service of the scope, port)
+    let cfgNs := dec ns
+    let sc := pickSidecar d.mesh d.scs cfgNs ((decLabels lbl).getD [])
+    let services := scopeServices d.flags d.mesh d.svcs d.vss sc cfgNs
+    let names := services.flatMap fun s => s.ports.map fun p => "outbound|" ++ toString p.num ++ "||" ++ s.hostname
+    "C=" ++ encSet names
   | ["gw", ns] =>
     let cfgNs := dec ns
     -- "Gateways always use default sidecar scope": a default scope cached by an earlier sidecar proxy wins
@@ -181,7 +188,8 @@ def stepD (d : DState) (toks : List String) : DState × String :=
   | ["build"] =>
     ({ d with built := true, defaultNs := [], svcs := sortServices d.raw, vss := sortVS d.vssRaw,
               drIdx := setDestinationRules d.enhanced d.mesh d.drs }, "ok")
-  | ["scope", ns, lbl] =>
+  | [q, ns, lbl] =>
+    if q != "scope" && q != "xds" then (if d.built then (d, query d toks) else (d, "not-built")) else
     if !d.built then (d, "not-built") else
     let cfgNs := dec ns
     let cached := (pickSidecar d.mesh d.scs cfgNs ((decLabels lbl).getD [])).isNone
